@@ -1729,3 +1729,25 @@ mod tests {
         assert_eq!(diff, Duration::from_millis(u64::MAX));
     }
 }
+
+/// Verification hooks (only with `--cfg scylla_verif`): re-exports of the optional external
+/// crates whose types implement `SerializeValue` / `DeserializeValue`, so that a harness can
+/// name them without depending on the crates itself.
+#[cfg(scylla_verif)]
+#[allow(missing_docs)]
+pub mod verif_extern {
+    #[cfg(feature = "bigdecimal-04")]
+    pub use ::bigdecimal_04 as bigdecimal;
+    #[cfg(feature = "chrono-04")]
+    pub use ::chrono_04 as chrono;
+    #[cfg(feature = "num-bigint-03")]
+    pub use ::num_bigint_03;
+    #[cfg(feature = "num-bigint-04")]
+    pub use ::num_bigint_04;
+    #[cfg(feature = "secrecy-08")]
+    pub use ::secrecy_08;
+    #[cfg(feature = "secrecy-10")]
+    pub use ::secrecy_10;
+    #[cfg(feature = "time-03")]
+    pub use ::time_03 as time;
+}
